@@ -131,5 +131,5 @@ def main(argv):
             ok = check_ok_values(loops)
             vals = [v for v in pick_values(ck.rng, loops, 3 * nv) if ok(v)][:nv]
             cases.append(Case(k + 1, loops, vals))
-    run_cases(ck, hb, db, cases, "tile", batch=70 if ck.tier == "quick" else 100)
+    run_cases(ck, hb, db, cases, "tile", batch=28 if ck.tier == "quick" else 80)
     ck.finish(META["level_text"])
